@@ -182,7 +182,7 @@ var helpers = []helper{
 	{name: "disco.FetchItems", max: 3, call: func(ctx context.Context, e *env) (bool, error) {
 		it := disco.FetchItems(ctx, items.Item{JID: srv, Node: "n"}, e.s)
 		n := 0
-		for it.Next() && n < 50 {
+		for e.more(n) && it.Next() && n < 50 {
 			_ = it.Item()
 			n++
 		}
@@ -212,7 +212,7 @@ var helpers = []helper{
 
 	{name: "roster.Fetch", call: func(ctx context.Context, e *env) (bool, error) {
 		it := roster.Fetch(ctx, e.s)
-		for it.Next() {
+		for n := 0; e.more(n) && it.Next(); n++ {
 			_ = it.Item()
 		}
 		_ = it.Version()
@@ -255,7 +255,7 @@ var helpers = []helper{
 
 	{name: "blocklist.Fetch", call: func(ctx context.Context, e *env) (bool, error) {
 		it := blocklist.Fetch(ctx, e.s)
-		for it.Next() {
+		for n := 0; e.more(n) && it.Next(); n++ {
 			_ = it.JID()
 		}
 		err := it.Err()
@@ -281,7 +281,7 @@ var helpers = []helper{
 
 	{name: "bookmarks.Fetch", call: func(ctx context.Context, e *env) (bool, error) {
 		it := bookmarks.Fetch(ctx, e.s)
-		for it.Next() {
+		for n := 0; e.more(n) && it.Next(); n++ {
 			_ = it.Bookmark()
 		}
 		err := it.Err()
@@ -303,7 +303,7 @@ var helpers = []helper{
 
 	{name: "pubsub.Fetch", call: func(ctx context.Context, e *env) (bool, error) {
 		it := pubsub.Fetch(ctx, e.s, pubsub.Query{Node: "princely_musings", MaxItems: 2})
-		for it.Next() {
+		for n := 0; e.more(n) && it.Next(); n++ {
 			_, r := it.Item()
 			drainTokens(r)
 		}
@@ -360,7 +360,7 @@ var helpers = []helper{
 	{name: "commands.Fetch", call: func(ctx context.Context, e *env) (bool, error) {
 		it := commands.Fetch(ctx, srv, e.s)
 		n := 0
-		for it.Next() && n < 50 {
+		for e.more(n) && it.Next() && n < 50 {
 			_ = it.Command()
 			n++
 		}
@@ -377,7 +377,9 @@ var helpers = []helper{
 	{name: "commands.Execute", call: func(ctx context.Context, e *env) (bool, error) {
 		resp, payload, err := commands.Command{JID: srv, Node: "config"}.Execute(ctx, nil, e.s)
 		if err == nil && payload != nil {
-			consumePayload(payload)
+			if e.more(0) {
+				consumePayload(payload)
+			}
 			_ = resp.Next()
 			_ = resp.Cancel()
 			err = payload.Close()
@@ -388,7 +390,9 @@ var helpers = []helper{
 		steps := 0
 		err := commands.Command{JID: srv, Node: "config"}.ForEach(ctx, nil, e.s, func(resp commands.Response, payload xml.TokenReader) (commands.Command, xml.TokenReader, error) {
 			steps++
-			consumePayload(payload)
+			if e.more(steps - 1) {
+				consumePayload(payload)
+			}
 			if steps > 4 {
 				return resp.Cancel(), nil, nil
 			}
@@ -452,16 +456,8 @@ var helpers = []helper{
 	}},
 	{name: "history.Handler.Fetch", call: func(ctx context.Context, e *env) (bool, error) {
 		it := e.hist.Fetch(ctx, history.Query{ID: "qw2", With: peer.Bare()}, srv, e.s)
-		for it.Next() {
-			if r := it.Current(); r != nil {
-				r.Token()
-				r.Token()
-			}
-		}
-		err := it.Err()
-		res := it.Result()
-		_ = res.Set
-		it.Close()
+		e.histClose = e.closeEarly
+		_, err := e.consumeHistory(it)
 		return err == nil, err
 	}, reply: func(r *rand.Rand, req *xmltree.Node, n int) []*node {
 		f := mamFin("")
@@ -522,7 +518,7 @@ var helpers = []helper{
 			return false, err
 		}
 		_ = start.Name
-		for it.Next() {
+		for n := 0; e.more(n) && it.Next(); n++ {
 			_, r := it.Current()
 			drainTokens(r)
 		}
@@ -539,7 +535,7 @@ var helpers = []helper{
 		if err != nil {
 			return false, err
 		}
-		for it.Next() {
+		for n := 0; e.more(n) && it.Next(); n++ {
 			it.Current()
 		}
 		err = it.Err()
@@ -636,6 +632,9 @@ type helperCase struct {
 	// Fixed replaces the generated answers by literal ones ({id} is the id of
 	// the request being answered): pinned witnesses.
 	Fixed []string `json:"fixed,omitempty"`
+	// CloseEarly-1 is the number of items after which the consumer of an
+	// iterator-style helper calls Close without reading the rest (0: reads all)
+	CloseEarly int `json:"close_early,omitempty"`
 }
 
 func genHelperCase(r *rand.Rand, i int) *helperCase {
@@ -677,6 +676,9 @@ func genHelperCase(r *rand.Rand, i int) *helperCase {
 			p.Split = true
 		}
 		hc.Plans = append(hc.Plans, p)
+	}
+	if round >= 1 && r.Intn(4) == 0 {
+		hc.CloseEarly = 1 + r.Intn(3)
 	}
 	return hc
 }
@@ -830,6 +832,7 @@ func runHelperCase(c *core.Case, hc *helperCase) {
 	silent := false // the peer has given its last answer
 	unroutable := false
 	e.tag = ownerOf(h.name)
+	e.closeEarly = hc.CloseEarly - 1
 	e.mu.Lock()
 	e.autoReply = nil
 	e.mu.Unlock()
